@@ -134,8 +134,34 @@ def decodeOpts (b : Bytes) : Option Cfg :=
     | _, _, _ => none
   | _, _, _ => none
 
-/-- `NewCollection(options)` without the index rebuild. `existing` is the file on disk. -/
-def newCollection (existing : Option Bytes) (name : Bytes) (opts : Cfg) (mode : FileMode) : Outcome Coll :=
+/-- the reads performed by the index rebuild of `NewCollection` (`decodeDocument` on every record
+    whose id parses): any failure there is a `log.Panicf` -/
+def rebuildCheck (sf : SF) (cfg : Cfg) : Outcome Unit :=
+  sf.index.foldl (fun acc e =>
+    match acc with
+    | .ok () =>
+      if e.1.isEmpty then .ok () else
+      match parseUint e.1 with
+      | none => .ok ()
+      | some _ =>
+        let data := sf.file.drop e.2
+        match getStream data 1 with
+        | .ok vec =>
+          match decodeCodes cfg.quant cfg.dim vec with
+          | .ok _ =>
+            (match getStream data 0 with
+             | .ok _ => .ok ()
+             | _ => .panic "Failed to read metadata")
+          | _ => .panic "index out of range (decodeVector)"
+        | _ => .panic "Failed to read vector data"
+    | e => e) (.ok ())
+
+/-- `NewCollection(options)`; `dec blob callerOptions` is `json.Unmarshal(blob, &options)` (by default
+    the field extractor `decodeOpts`; the driver can be given encoding/json's answer as an oracle);
+    the LSH forest itself is modelled separately (`Model/Lsh.lean`).
+    `existing` is the file on disk. -/
+def newCollection (existing : Option Bytes) (name : Bytes) (opts : Cfg) (mode : FileMode)
+    (dec : Bytes → Cfg → Option Cfg := fun b _ => decodeOpts b) : Outcome Coll :=
   let fileExists : Bool := decide (mode ≠ .createAndOverwrite) && (match existing with | some b => !b.isEmpty | none => false)
   match openFile existing mode with
   | .err m => .err ("failed to open file: " ++ m)
@@ -150,7 +176,7 @@ def newCollection (existing : Option Bytes) (name : Bytes) (opts : Cfg) (mode : 
           match header.streams with
           | [] => .panic "index out of range [0] (header has no streams)"
           | s0 :: _ =>
-            match decodeOpts s0.data with
+            match dec s0.data opts with
             | none => .err "failed to unmarshal options"
             | some cfg => .ok (sf, cfg)
       else
@@ -164,7 +190,11 @@ def newCollection (existing : Option Bytes) (name : Bytes) (opts : Cfg) (mode : 
     | .panic m => .panic m
     | .ok (sf, cfg) =>
       if cfg.metric ≠ 0 ∧ cfg.metric ≠ 1 then .err "unsupported distance method"
-      else .ok { sf := sf, cfg := cfg, readOnly := mode = .readOnly }
+      else
+        match (if fileExists then rebuildCheck sf cfg else .ok ()) with
+        | .ok () => .ok { sf := sf, cfg := cfg, readOnly := mode = .readOnly }
+        | .err m => .err m
+        | .panic m => .panic m
 
 /-- `getDocument(id)` -/
 def getDocument (c : Coll) (id : Nat) : Outcome Doc :=
